@@ -331,6 +331,10 @@ func VerifC18Conc() {
 	init.Set("b", c18Record(0644, 1), nil)
 	_, err := init.Commit(context.Background())
 	verifAssert(err == nil, "initial commit")
+	staleAbort := verifChoice("stale-abort", 2) == 1
+	if staleAbort {
+		verifTag("stale-abort", "yes")
+	}
 	n := verifParam("READERS")
 	seenA, seenB := make([]byte, n), make([]byte, n)
 	var wg sync.WaitGroup
@@ -340,6 +344,11 @@ func VerifC18Conc() {
 		verifGo(1)
 		defer verifGoDone()
 		w := c18BeginSched(s, keyvalue.TransactionReadWrite)
+		if staleAbort {
+			// the usual "defer txn.Abort()" of a transaction that was committed long ago fires now, inside its
+			// successor's lifetime: it must not release the successor's hold on the store
+			_ = init.Abort()
+		}
 		w.Set("a", c18Record(0644, 2), nil)
 		w.Set("b", c18Record(0644, 2), nil)
 		_, _ = w.Commit(context.Background())
